@@ -427,13 +427,18 @@ def correspondence(ctx):
         g2 = g
         if isinstance(res, tuple) and res[0] == "raised":
             # rrule(**kwargs) rejected the arguments (C01's domain), but which arguments and options reached it is still compared
-            if g.startswith("ok") and not (" o" in g or "[o" in g or ",o" in g or "o+" in g) and e != g:
+            if res[1] != "err ValueError":
+                ctx.mismatch("rrs.parse", q, res[1] + " raised by rrule(**kwargs): only ValueError may leave rrulestr", g)
+            elif g.startswith("ok") and not (" o" in g or "[o" in g or ",o" in g or "o+" in g) and e != g:
                 ctx.mismatch("rrs.parse", q, e + "   (then rrule() raised: " + res[1] + ")", g)
             else:
                 ctx.count("rejected_downstream_of_the_model")
             continue
         if isinstance(res, str) and res.startswith("err") and g.startswith("ok"):
-            # the model stops at the kwargs: rrule(**kwargs) / parser.parse(date) may still reject them (C01 / C02 domain)
+            # the model stops at the kwargs: rrule(**kwargs) / parser.parse(date) may still reject them (C01 / C02 domain) -
+            # but only with a ValueError (ParserError is one); any other kind is a disagreement with errors_are_ValueError
+            if res != "err ValueError":
+                ctx.mismatch("rrs.parse", q, res + " (the model accepts; downstream rejections must be ValueError)", g); continue
             ctx.count("rejected_downstream_of_the_model"); continue
         if g.startswith("err IndexError") and e.startswith("err"):
             pass
@@ -647,6 +652,55 @@ def oracle_malformed(ctx):
                 continue
             if out != "ValueError":
                 ctx.violation("rrulestr(%r, %s): %s instead of ValueError" % (m, opts, out), {"kind": "malformed", "text": m, "opts": sorted(opts), "outcome": out}, None)
+    # malformed / oversized date values in UNTIL, DTSTART, RDATE, EXDATE on all three paths: ValueError or (the parser is
+    # lenient) accepted, never another exception kind; the certainly-bad ones must be rejected
+    rng = ctx.subrng("oracle-baddates")
+    def bad_date():
+        k = rng.randint(0, 9)
+        if k == 0: return "9" * rng.randint(9, 40), False
+        if k == 1: return "%d" % rng.randint(10**15, 10**30) + rng.choice(["", "T000000", "Z"]), False
+        if k == 2: return "1997%02d%02dT%02d%02d%02d" % (rng.choice([0, 13, 99]), rng.randint(1, 28), 9, 0, 0), True
+        if k == 3: return "199709%02dT090000" % rng.choice([0, 32, 99]), True
+        if k == 4: return "19970902T%02d%02d%02d" % (rng.choice([24, 25, 99]), rng.choice([0, 60]), rng.choice([0, 61])), False
+        if k == 5:
+            v = rng.choice(["", "NOTADATE", "T", "Z", "-", "19970902T", "00000000T000000", "1E999999", "1E-999999"])
+            return v, v in ("", "NOTADATE", "00000000T000000")
+        if k == 6: return "19970902T090000" + rng.choice(["+9999", "-99:99", "+1E9", "." + "9" * 30, "Z" * 3]), False
+        if k == 7: return "%d-%d-%d" % (rng.randint(10000, 10**12), rng.randint(1, 12), rng.randint(1, 28)), False
+        if k == 8: return "0" * rng.randint(1, 30), False
+        return "".join(rng.choice("0123456789TZ:-+.,E") for _ in range(rng.randint(1, 25))), False
+    for i in range(ctx.budget(150, 4000)):
+        bad, certain = bad_date()
+        if "," in bad or ";" in bad or ":" in bad:
+            certain = False
+        where = rng.randint(0, 7)
+        good = "19970902T090000"
+        txt, opts = [("FREQ=DAILY;COUNT=2;UNTIL=" + bad, {}),                                   # fast path, bare value
+                     ("RRULE:FREQ=DAILY;UNTIL=" + bad, {}),                                      # fast path, RRULE line
+                     ("DTSTART:" + good + "\nRRULE:FREQ=DAILY;UNTIL=" + bad, {}),               # several lines, one rule
+                     ("DTSTART:" + bad + "\nRRULE:FREQ=DAILY;COUNT=2", {}),
+                     ("DTSTART:" + good + "\nRRULE:FREQ=DAILY;UNTIL=" + bad, {"forceset": True}),  # set path
+                     ("DTSTART:" + good + "\nRRULE:FREQ=DAILY;COUNT=2\nRDATE:" + good + "," + bad, {}),
+                     ("DTSTART:" + good + "\nRRULE:FREQ=DAILY;COUNT=2\nEXDATE:" + bad, {}),
+                     ("DTSTART:" + good + "\nRRULE:FREQ=DAILY;COUNT=2\nEXRULE:FREQ=DAILY;UNTIL=" + bad, {"compatible": True})][where]
+        if any(c.isspace() for c in bad):
+            continue
+        ctx.case((txt, tuple(sorted(opts)), "baddate"), nontrivial=False); ctx.count("malformed_date_values")
+        try:
+            with warnings.catch_warnings():
+                warnings.simplefilter("ignore")
+                limited(lambda: R.rrulestr(txt, **opts), 2.0)
+            out = "accepted"
+        except Timeout:
+            continue
+        except ValueError:
+            out = "ValueError"
+        except Exception as ex:
+            out = exc_kind(ex)
+        ctx.count("baddate_" + out)
+        if out not in ("ValueError", "accepted") or (certain and out == "accepted"):
+            ctx.violation("rrulestr(%r, %s) with a malformed date value: %s instead of ValueError" % (txt, opts, out),
+                          {"kind": "malformed", "text": txt, "opts": sorted(opts), "outcome": out}, None)
 
 
 def oracle(ctx):
